@@ -34,6 +34,26 @@ pub enum Conf {
     /// another request arrives instead; a late right confirm must produce nothing
     NewRequest,
     Disconnect,
+    /// a new connection pre-empts the session (no disconnect first): the series ends with the connection
+    Preempt,
+    /// like Missing, but something that must be ignored arrives after 2/3 of the time-out (see `distraction`): the
+    /// time-out still counts from the transmission of the fragment
+    MissingDistracted(u8),
+    /// like SlowRight with such a fragment half way: the right confirmation just before the time-out still counts
+    SlowRightDistracted(u8),
+}
+
+/// what keeps arriving while the confirmation is missing (it must not postpone the time-out): 0 a CONFIRM with another
+/// sequence number, 1 a CONFIRM with the UNS bit, 2 a link status request
+pub fn distraction(rig: &mut OutRig, kind: u8, seq: u8) {
+    match kind % 3 {
+        0 => rig.send(&Fragment::confirm((seq + 5) & 0x0F, false)),
+        1 => rig.send(&Fragment::confirm(seq, true)),
+        _ => {
+            let b = crate::verif::wire::link::encode(0xC9, OUTSTATION_ADDR, MASTER_ADDR, &[]);
+            rig.send_raw(&b);
+        }
+    }
 }
 
 #[derive(Clone, Debug, Serialize, Deserialize)]
@@ -230,6 +250,8 @@ impl Prop for Snapshot {
             ("multi_fragment", 80),
             ("update_to_unreported_point", 30),
             ("series_aborted", 30),
+            ("distracted_wait", 20),
+            ("preempted", 10),
         ]
     }
     fn strategy(_tier: Tier) -> BoxedStrategy<Case> {
@@ -272,6 +294,9 @@ impl Prop for Snapshot {
             1 => Just(Conf::Missing),
             1 => Just(Conf::NewRequest),
             1 => Just(Conf::Disconnect),
+            1 => Just(Conf::Preempt),
+            1 => (0u8..3).prop_map(Conf::MissingDistracted),
+            1 => (0u8..3).prop_map(Conf::SlowRightDistracted),
         ];
         (
             proptest::collection::vec(point, 0..12),
@@ -551,11 +576,32 @@ async fn run_case(case: &Case) -> CaseOut {
                     return out;
                 }
             }
-            Conf::Missing | Conf::NewRequest | Conf::Disconnect => {
+            Conf::SlowRightDistracted(kind) => {
+                rig.advance(TIMEOUT / 2).await;
+                distraction(&mut rig, kind, f.seq);
+                rig.advance(TIMEOUT / 2 - 1).await;
+                // (a link status request is answered at the link layer; no application fragment may be sent)
+                if let Some(x) = quiet(&mut rig, "while waiting (less than the confirm timeout, one ignored fragment in between)") {
+                    out.fail(x);
+                    return out;
+                }
+                out.label("distracted_wait");
+            }
+            Conf::Missing | Conf::NewRequest | Conf::Disconnect | Conf::Preempt | Conf::MissingDistracted(_) => {
                 aborted = true;
                 out.label("series_aborted");
                 match conf {
                     Conf::Missing => rig.advance(TIMEOUT + 1).await,
+                    Conf::MissingDistracted(kind) => {
+                        rig.advance(TIMEOUT * 2 / 3).await;
+                        distraction(&mut rig, kind, f.seq);
+                        rig.advance(TIMEOUT * 2 / 3).await;
+                        out.label("distracted_wait");
+                    }
+                    Conf::Preempt => {
+                        rig.connect().await;
+                        out.label("preempted");
+                    }
                     Conf::NewRequest => {
                         rig.send(&Fragment::request(
                             (case.seq + 9) & 0x0F,
